@@ -746,6 +746,20 @@ func genVals(t *rapid.T, n int, enc string, forceRuns bool) ([]Hex, string) {
 		0x7fffffffffffffff, 0x8000000000000000, 0xffffffffffffffff}
 	vals := make([]Hex, n)
 	id := base
+	if s.name == "TypeEncF" && rapid.Bool().Draw(t, "floatedge") {
+		// values that Go's == / DeepEqual confuse but whose encodings differ (+0 / -0),
+		// or that are never equal to themselves (NaN), next to each other
+		pal := []uint64{0x0000000000000000, 0x8000000000000000, 0x3ff0000000000000, 0x7ff8000000000001, 0x7ff8000000000002, 0xfff0000000000000}
+		for i := 0; i < n; i++ {
+			b := leBytes(pal[rng.intn(len(pal))], 8)
+			g := []uint64{0x00000000, 0x80000000, 0x7fc00000}[rng.intn(3)]
+			vals[i] = Hex(append(b, leBytes(g, 4)...))
+			if i > 0 && rng.intn(100) < runP/2 {
+				vals[i] = vals[i-1]
+			}
+		}
+		return vals, "floatedge"
+	}
 	for i := 0; i < n; i++ {
 		switch mode {
 		case "distinct":
